@@ -114,6 +114,13 @@ where
                     && termination_reason == TextElementTermination::PlaceableStart
                 {
                     common_indent = Some(common_indent.map_or(indent, |c| c.min(indent)));
+                    // indentation in front of the placeable beyond the common indent is text
+                    elements.push(PatternElementPlaceholders::TextElement(
+                        slice_start,
+                        end,
+                        indent,
+                        text_element_role,
+                    ));
                 }
 
                 text_element_role = match termination_reason {
@@ -130,9 +137,9 @@ where
                 .into_iter()
                 .take(last_non_blank + 1)
                 .enumerate()
-                .map(|(i, elem)| match elem {
+                .filter_map(|(i, elem)| match elem {
                     PatternElementPlaceholders::Placeable(expression) => {
-                        ast::PatternElement::Placeable { expression }
+                        Some(ast::PatternElement::Placeable { expression })
                     }
                     PatternElementPlaceholders::TextElement(start, end, indent, role) => {
                         let start = if role == TextElementPosition::LineStart {
@@ -143,11 +150,15 @@ where
                         } else {
                             start
                         };
+                        if start == end {
+                            // indentation in front of a placeable, all of it common indent
+                            return None;
+                        }
                         let mut value = self.source.slice(start..end);
                         if last_non_blank == i {
                             value.trim();
                         }
-                        ast::PatternElement::TextElement { value }
+                        Some(ast::PatternElement::TextElement { value })
                     }
                 })
                 .collect();
